@@ -77,9 +77,9 @@ func shortPos(file string, line int) string {
 
 // Fn resolves a package-level function; a missing anchor is reported as undecided under rule.
 func (e *Env) Fn(rule, pkg, name string) *ssa.Function {
-	f := e.P.Func(pkg, name)
+	f := e.F(pkg, name)
 	if f == nil {
-		e.S.Unk(rule, pkg+"."+name, "anchor", "anchor function not found in the tree", "")
+		e.S.Unk(rule, pkg+"."+name, "anchor", "anchor function not found in the tree (and no unique function of the same package has its recorded signature)", "")
 	}
 	return f
 }
@@ -95,9 +95,9 @@ func (e *Env) Method(rule, pkg, typ, name string) *ssa.Function {
 
 // Var resolves a package-level variable; a missing anchor is reported as undecided under rule.
 func (e *Env) Var(rule, pkg, name string) *ssa.Global {
-	g := e.P.Var(pkg, name)
+	g := e.V(pkg, name)
 	if g == nil {
-		e.S.Unk(rule, pkg+"."+name, "anchor", "anchor variable not found in the tree", "")
+		e.S.Unk(rule, pkg+"."+name, "anchor", "anchor variable not found in the tree (and no unique variable of the same package has its recorded type)", "")
 	}
 	return g
 }
